@@ -13,7 +13,8 @@ def nontrivial(d, t, r):
 
 
 def extra(tier, seed):
-    return families.selector_suite(tier, seed) + families.xy_suite(tier, seed)[:: 3]
+    return families.selector_suite(tier, seed) + families.xy_suite(tier, seed)[:: 3] + \
+        [(d, t) for d, t in families.conflict_suite(tier, seed) if t.get("topo") == "one-sided-dir"]
 
 
 def run(tier, seed, rep, replay=None):
